@@ -126,7 +126,7 @@ type diffOut struct {
 }
 
 func budgetFor(steps, plen int) int64 {
-	return int64(8) * latMem * int64(steps+plen+64)
+	return int64(24) * latMem * int64(steps+plen+64)
 }
 
 // refNontrivial: executes >= 5 instructions and has a taken branch, a memory
